@@ -7,6 +7,7 @@ package evm
 
 import (
 	"bytes"
+	"math/big"
 
 	"github.com/dappledger/AnnChain/eth/common"
 	estate "github.com/dappledger/AnnChain/eth/core/state"
@@ -217,4 +218,48 @@ func VerifHarness_C05_map_order_independence() {
 		vAssert(bytes.Equal(ca.AppHash, cb.AppHash), "app-hash-independent-of-map-iteration-order")
 	}
 	vReach("replicas-compared")
+}
+
+// What a contract can read about the chain (BLOCKHASH of older blocks, block number, time, coinbase)
+// must not depend on how long the process has been running: blocks 1 and 2 are empty, block 3
+// creates a contract whose init code logs BLOCKHASH(NUMBER-2), NUMBER, TIMESTAMP and COINBASE; one
+// replica executes all three in one process, the other is restarted before block 3.
+func VerifHarness_C05_chain_context_restart() {
+	vC09App()
+	init := []byte{
+		0x60, 0x02, 0x43, 0x03, 0x40, 0x60, 0x00, 0x52, // mem[0]  = BLOCKHASH(NUMBER-2)
+		0x43, 0x60, 0x20, 0x52, // mem[32] = NUMBER
+		0x42, 0x60, 0x40, 0x52, // mem[64] = TIMESTAMP
+		0x41, 0x60, 0x60, 0x52, // mem[96] = COINBASE
+		0x60, 0x80, 0x60, 0x00, 0xa0, 0x00, // LOG0(0, 128); STOP
+	}
+	// (one and the same raw transaction goes into both replicas' block 3: the block hash is part of what
+	// the receipts record)
+	tx := vC09Sign(etypes.NewContractCreation(0, big.NewInt(0), 300000, big.NewInt(0), init))
+	var raw []byte
+	if vSymbolic() {
+		raw = vNondetBytes("rawtx", 2)
+		vJSONBind(raw, tx)
+	} else {
+		var err error
+		if raw, err = rlp.EncodeToBytes(tx); err != nil {
+			panic(err)
+		}
+	}
+	mk3 := func() *gtypes.Block { return vC05Block(3, [][]byte{raw}) }
+	dl := vC05NewDisk()
+	L := vC05Start(dl)
+	vC05Run(L, vC05Block(1, nil))
+	vC05Run(L, vC05Block(2, nil))
+	rl, cl := vC05Run(L, mk3())
+	dr := vC05NewDisk()
+	X := vC05Start(dr)
+	vC05Run(X, vC05Block(1, nil))
+	vC05Run(X, vC05Block(2, nil))
+	R := vC05Start(dr) // restart
+	rr, cr := vC05Run(R, mk3())
+	vReach("both-executed")
+	vAssert(len(rl.ValidTxs) == 1 && len(rr.ValidTxs) == 1, "contract-creation-executes")
+	vAssert(bytes.Equal(cl.ReceiptsHash, cr.ReceiptsHash), "chain-context-seen-by-contracts-independent-of-process-lifetime")
+	vAssert(bytes.Equal(cl.AppHash, cr.AppHash), "app-hash-independent-of-process-lifetime")
 }
